@@ -12,8 +12,8 @@ package mqttproxy
 // ticker of backgroundResendPending on the virtual clock), TopicManager, the
 // publish limiter and Broker.httpTopicsPublishHandler, which the publisher
 // tasks call in-process with an httptest recorder. storage = the repo's
-// mockStorage, publish pipeline = a recording context.Handler behind a
-// MuxMapper. Map ranges of the package (subscriber enumeration in
+// mockStorage behind a recording wrapper (c15Store), publish pipeline = a
+// recording context.Handler behind a MuxMapper. Map ranges of the package (subscriber enumeration in
 // sendMsgToClient, trie walk in findSubscribers) iterate in a run-determined
 // order (check.json map_ranges).
 //
@@ -38,10 +38,27 @@ package mqttproxy
 // SUBACK / UNSUBACK on and only while it stays connected; it is no longer
 // judged once it ends itself, once another connection with its id starts to
 // dial, or if it connects while a delete-watch echo of an earlier clean
-// session of its id may be pending (known C16 findings). cleanSession=0 is used
-// only by the first connection of an id (no inherited sessions: C16). A
+// session of its id may be pending (known C16 findings). A
 // connection that stays connected and subscribed must get every message
 // whatever the others do (C15.delivery-lost-after-subscriber-churn).
+//
+// Persistent sessions on a re-used client id (cleanSession=0 on the 2nd/3rd
+// connection of an id): after the predecessor has ended (DISCONNECT, close,
+// reset) and the broker has torn it down completely, the session exists only
+// in the session storage; the reconnect decodes it from there (fresh Session
+// object: empty pending queue, its own resend ticker), the broker re-subscribes
+// the stored filters, and the connection may live on those restored
+// subscriptions alone (no SUBSCRIBE of its own). A recipe drawn in ~30% of
+// the scenarios then publishes QoS1 messages to the restored connection only
+// after it is back (c15Pub.After) while it withholds PUBACKs or does not read
+// during a burst longer than its outbound queue: redelivery until the PUBACK
+// is required on the restored session exactly as on any other. If the
+// reconnect comes before the broker noticed the end of the old connection, or
+// takes over an open one, the session object is inherited in memory instead.
+// The storage is the repo's mockStorage behind a recording wrapper
+// (c15Store); which of the two happened, and which subscriptions a restored
+// session brought along, is read off that stub: the session look-up during the
+// handshake and the value it was answered with.
 // A broker lock that cannot be read-locked during 21 polls is reported as
 // C15.broker-deadlock.
 //
@@ -99,8 +116,32 @@ package mqttproxy
 //     recording pipeline (the limiter arithmetic belongs to C09/C10); without a
 //     limiter every client PUBLISH must reach the pipeline. PUBACK for a QoS1
 //     PUBLISH the pipeline dropped: both answers accepted.
+//   * a cleanSession=0 connection of a re-used id holds, from its CONNACK on,
+//     the subscriptions its session brought along: those of the stored session
+//     it was answered with (restored) or the predecessor's acknowledged ones
+//     (inherited in memory); its own SUBACK/UNSUBACKs change them from there.
+//     Where a restored session differs from what the predecessor had
+//     acknowledged (known C16 findings: the session store lags behind the
+//     SUBACK) the filters concerned are "in flux" for that connection until it
+//     re-subscribes or unsubscribes them itself: both outcomes accepted (probe
+//     mqtt.restored_session_differs_from_acknowledged_subscriptions). Before it
+//     ends, a persistent connection that will come back waits up to 40 ms for the
+//     stored session to catch up with its acknowledged subscriptions.
+//   * a PUBACK sent on an earlier, superseded connection of the same client id
+//     that shares the session object (inherited in memory) for the same message
+//     and packet id is an acknowledgement by that client: the copy the successor
+//     received need not be retransmitted any further (probe
+//     mqtt.inherited_session.acknowledged_through_superseded_connection).
+//   * QoS1 copies a persistent client had not acknowledged when it ended its
+//     connection: the statement speaks of connected clients and does not say
+//     whether they must be redelivered after the client's return. Not judged;
+//     probes mqtt.unacked_qos1_of_ended_connection_(not_)redelivered_on_
+//     {restored,inherited}_session record what easegress does (the pending
+//     queue is not part of the stored session: never redelivered on a restored
+//     session, redelivered on one inherited in memory).
 //   * not generated: QoS2, invalid filters, '$' topics, empty levels, retained
-//     messages, wills, inherited (cleanSession=0) sessions on a re-used id (C16).
+//     messages, wills, keep-alive expiry (keep-alive 0, see HARNESS_GUIDE on
+//     scheduler stalls), storage latency and storage errors (C16).
 //   * clients that stop reading for good are generated in the thorough tier (in
 //     the quick tier only when c15HangScenarios is true); their own deliveries
 //     are not judged.
@@ -2086,7 +2127,7 @@ func (h *c15H) evaluate() {
 	// had not acknowledged when it ended its connection, after its return
 	for _, cl := range h.clients {
 		pr := cl.accepted()
-		if cl.clean || !cl.connected || pr == nil || pr.clean || !pr.ending || !(cl.restored || cl.inMemory) {
+		if cl.clean || !cl.connected || pr == nil || pr.clean || !pr.ending || !(cl.restored || cl.inMemory) || cl.ending || cl.lost != "" || cl.hung {
 			continue
 		}
 		for _, key := range pr.rxOrder {
@@ -2102,7 +2143,6 @@ func (h *c15H) evaluate() {
 				r.Probe("mqtt.unacked_qos1_of_ended_connection_redelivered_on_" + how + "_session")
 			} else {
 				r.Probe("mqtt.unacked_qos1_of_ended_connection_not_redelivered_on_" + how + "_session")
-				if how == "inherited" { h.violate("C15.x-investigate", "%s %s", cl.name, key) } // XXX-TEMP
 			}
 		}
 	}
@@ -2465,11 +2505,11 @@ func TestVerifC15(t *testing.T) {
 		Shrink:   c15Shrink,
 		MaxSteps: 600000,
 		DeadlockClass: "C15.deadlock",
-		Rule: "scenario = 2-9 raw MQTT connections (in ~55% of the scenarios with unsubscribes, disconnects, late joiners, reconnects and take-overs of client ids, prefix-nested filters) with 1-6 overlapping filters of QoS 0/1 over 1-4 topics (1-2 SUBSCRIBE packets, late re-subscriptions), per-client PUBACK behaviours (prompt, omit k, delay, duplicate, +PINGREQ), optional read stall, client PUBLISH ops; 1-2 publishers with 1-8 HTTP publishes each (QoS 0/1, bursts up to 120), limiter/pipeline-drop knobs, simnet buffer/segment/latency plan; " +
+		Rule: "scenario = 2-10 raw MQTT connections (in ~55% of the scenarios with unsubscribes, disconnects, late joiners, reconnects and take-overs of client ids - clean or with cleanSession=0: session restored from the storage after a complete teardown or inherited in memory -, prefix-nested filters; in ~30% a recipe: persistent QoS1 subscriber ends, is torn down, returns with cleanSession=0 and only then gets QoS1 publishes whose first transmission is lost by withheld PUBACKs or a burst beyond its outbound queue) with 1-6 overlapping filters of QoS 0/1 over 1-4 topics (1-2 SUBSCRIBE packets, late re-subscriptions), per-client PUBACK behaviours (prompt, omit k, delay, duplicate, +PINGREQ), optional read stall, client PUBLISH ops; 1-2 publishers with 1-8 HTTP publishes each (QoS 0/1, bursts up to 120), limiter/pipeline-drop knobs, simnet buffer/segment/latency plan; " +
 			"non-trivial = some message had >=2 eligible subscribers and (a QoS1 message had both eligible and lower-QoS subscribers, or a retransmission was observed); distinct = distinct (final subscriptions, per-client sequence of received messages with copy counts) signatures",
 		Real: []string{"pkg/object/mqttproxy: newBroker, Broker.run/handleConn/connectionValidation/setSession, sendMsgToClient, httpTopicsPublishHandler, Client.readLoop/writeLoop/processPacket (SUBSCRIBE, PUBLISH, PUBACK, PINGREQ), pipelineWrapper, Limiter, SessionManager, Session.publish/puback/doResend/backgroundResendPending (200 ms ticker on the virtual clock), TopicManager",
 			"pkg/util/ratelimiter (publish limiter)", "github.com/eclipse/paho.mqtt.golang/packets codec on both sides"},
-		Stub: []string{"TCP: verif/simkit/simnet through netshim (bounded buffers, segmentation, latency)", "storage: the repo's mockStorage", "publish pipeline: recording context.Handler behind a MuxMapper (may drop by topic)",
+		Stub: []string{"TCP: verif/simkit/simnet through netshim (bounded buffers, segmentation, latency)", "storage: the repo's mockStorage behind a recording wrapper (session look-ups and their answers, puts, deletes)", "publish pipeline: recording context.Handler behind a MuxMapper (may drop by topic)",
 			"MQTT clients: harness tasks (reader, single writer, script) speaking raw MQTT 3.1.1", "HTTP: handler called in-process with httptest (memberURL returns no peers)",
 			"sync/atomic of the package -> simsync/simatomic (same semantics + gates); map ranges of the package iterate in a seeded order"},
 		Assumptions: []string{
@@ -2479,7 +2519,10 @@ func TestVerifC15(t *testing.T) {
 			"a subscriber whose matching filters all have a lower QoS may receive a downgraded copy or nothing; a copy at the message's QoS is a violation",
 			"retransmission interval not asserted; copies between the client's PUBACK and a PINGRESP proving its processing are legal; duplicate QoS0 copies not judged",
 			"with a publish limiter, 'passed the limiter' is read off the recording pipeline; PUBACK for a PUBLISH the pipeline dropped: both accepted",
-			"not generated: QoS2, invalid filters, '$' topics, wills, retained, keep-alive expiry (keep-alive 0), cleanSession=0 on a re-used client id (inherited sessions are C16's subject), SUBSCRIBE/UNSUBSCRIBE by a connection that is going to be superseded",
+			"not generated: QoS2, invalid filters, '$' topics, wills, retained, keep-alive expiry (keep-alive 0), storage latency/errors (C16), SUBSCRIBE/UNSUBSCRIBE by a connection that is going to be superseded",
+			"cleanSession=0 on a re-used client id: from its CONNACK on the connection holds the subscriptions of the stored session the broker was answered with during the handshake (restored from storage) or the acknowledged subscriptions of the predecessor (no storage look-up: inherited in memory); filters on which a restored session differs from the predecessor's acknowledged state (known C16 store-lag findings) are in flux until the connection (un)subscribes them itself: both outcomes accepted; more than one look-up during a handshake: connection not judged",
+			"redelivery until PUBACK is required on restored and inherited sessions like on any other; a PUBACK for the same message and packet id sent on a superseded connection that shares the session object counts as the client's acknowledgement",
+			"QoS1 copies unacknowledged when a persistent client ended its connection are not required to be redelivered after its return (statement silent; recorded by probes mqtt.unacked_qos1_of_ended_connection_*)",
 			"population dynamics: a connection is judged from its own CONNACK/SUBACK/UNSUBACK on while it stays connected; not judged any more once it ends itself, once another connection with its client id starts to dial, or when it connects while the delete-watch echo of an earlier clean session of its id may be pending (known C16 findings); messages issued before the CONNACK of a re-used id may or may not reach the new connection",
 			"a QoS1 copy of a message issued before the CONNACK of a re-used client id is treated as an ordinary message only if the id's current session holds it under that packet id (white-box look, decides the client's behaviour only); otherwise it is neither acknowledged nor judged (it stems from the predecessor's session)",
 			"C15.broker-deadlock = Broker.getClient not returning during 21 polls of 300 ms",
